@@ -32,9 +32,18 @@ impl GeoProperties {
 	{ unimplemented!() }
 }
 // all tag ids of the first n pairs address entries of the tables
+pub open spec fn pair_ok(nk: int, nv: int, tags: Seq<u32>, i: int) -> bool { tags[2 * i] < nk && tags[2 * i + 1] < nv }
 pub open spec fn tags_in_range(nk: int, nv: int, tags: Seq<u32>, n: int) -> bool {
-	forall|i: int| 0 <= i < n ==> (#[trigger] tags[2 * i]) < nk && tags[2 * i + 1] < nv
+	forall|i: int| 0 <= i < n ==> #[trigger] pair_ok(nk, nv, tags, i)
 }
+pub proof fn lemma_in_range_at(nk: int, nv: int, tags: Seq<u32>, n: int, i: int)
+	requires tags_in_range(nk, nv, tags, n), 0 <= i < n
+	ensures tags[2 * i] < nk, tags[2 * i + 1] < nv
+{ assert(pair_ok(nk, nv, tags, i)); }
+pub proof fn lemma_in_range_mono(nk0: int, nv0: int, nk1: int, nv1: int, tags: Seq<u32>, n: int)
+	requires tags_in_range(nk0, nv0, tags, n), nk0 <= nk1, nv0 <= nv1
+	ensures tags_in_range(nk1, nv1, tags, n)
+{ assert forall|i: int| 0 <= i < n implies #[trigger] pair_ok(nk1, nv1, tags, i) by { assert(pair_ok(nk0, nv0, tags, i)); } }
 // extending the tables (old entries keep their positions) and the tag list does not change what the first n pairs denote
 pub proof fn lemma_tags_map_stable(k0: Seq<AbsStr>, v0: Seq<GeoValue>, t0: Seq<u32>, k1: Seq<AbsStr>, v1: Seq<GeoValue>, t1: Seq<u32>, n: int)
 	requires 0 <= n, 2 * n <= t0.len() <= t1.len(), tags_in_range(k0.len() as int, v0.len() as int, t0, n),
@@ -45,7 +54,8 @@ pub proof fn lemma_tags_map_stable(k0: Seq<AbsStr>, v0: Seq<GeoValue>, t0: Seq<u
 {
 	if n > 0 {
 		lemma_tags_map_stable(k0, v0, t0, k1, v1, t1, n - 1);
-		assert(t0[2 * (n - 1)] < k0.len() && t0[2 * (n - 1) + 1] < v0.len());
+		assert(pair_ok(k0.len() as int, v0.len() as int, t0, n - 1));
+		assert(tags_in_range(k0.len() as int, v0.len() as int, t0, n - 1));
 	}
 }
 
@@ -88,7 +98,7 @@ impl PropertyManager {
 				assert(tag_ids@.len() == t0.len() + 2 && forall|i: int| 0 <= i < t0.len() ==> tag_ids@[i] == t0[i]);
 				assert(tags_in_range(self.key.list@.len() as int, self.val.list@.len() as int, tag_ids@, vi + 1)) by {
 					assert forall|i: int| 0 <= i < vi + 1 implies (#[trigger] tag_ids@[2 * i]) < self.key.list@.len() && tag_ids@[2 * i + 1] < self.val.list@.len() by {
-						if i < vi { assert(t0[2 * i] < k0.len() && t0[2 * i + 1] < v0.len()); } }
+						if i < vi { lemma_in_range_at(k0.len() as int, v0.len() as int, t0, vi as int, i); assert(tag_ids@[2 * i] == t0[2 * i] && tag_ids@[2 * i + 1] == t0[2 * i + 1]); } }
 				}
 				lemma_tags_map_stable(k0, v0, t0, self.key.list@, self.val.list@, tag_ids@, vi as int);
 				assert(tags_map(self.key.list@, self.val.list@, tag_ids@, vi + 1) == tags_map(self.key.list@, self.val.list@, tag_ids@, vi as int).insert(vpairs@[vi as int].0, vpairs@[vi as int].1));
@@ -111,6 +121,10 @@ pub fn clone_feature(f: &VectorTileFeature) -> (r: VectorTileFeature)
 #[verifier::external_body]
 pub proof fn axiom_tables_fit(pm: &PropertyManager) ensures pm.key.list@.len() < 0x3fff_ffff, pm.val.list@.len() < 0x3fff_ffff { }
 
+// Option::map(|properties| Ok((feature, properties))) (R7)
+pub fn vmap_ok_fn(o: Option<GeoProperties>, feature: VectorTileFeature) -> (r: Option<Result<(VectorTileFeature, GeoProperties), VErr>>)
+	ensures match o { Some(p) => r == Some(Ok::<(VectorTileFeature, GeoProperties), VErr>((feature, p))), None => r is None }
+{ match o { Some(p) => Some(Ok((feature, p))), None => None } }
 // same feature up to the tag ids (which index layer-specific tables)
 pub open spec fn same_body(f: VectorTileFeature, g: VectorTileFeature) -> bool { f.id == g.id && f.geom_type == g.geom_type && f.geom_data@ == g.geom_data@ }
 impl VectorTileLayer {
@@ -141,6 +155,20 @@ impl VectorTileLayer {
 		ensures r is Ok ==> tag_ids@.len() % 2 == 0 && tags_in_range(self.property_manager.key.list@.len() as int, self.property_manager.val.list@.len() as int, tag_ids@, tag_ids@.len() as int / 2),
 			r is Ok ==> r.unwrap().0.view() == tags_map(self.property_manager.key.list@, self.property_manager.val.list@, tag_ids@, tag_ids@.len() as int / 2),
 //@end
+	// ---- filter_map_properties: the per-feature closure (lifted, R10). A feature whose tag ids do not address the layer's tables (they
+	// come from the file) must lead to an error, not to a panic (C19); the properties handed to the callback are the decoded ones (C11)
+//@extract closure file="versatiles_geometry/src/vector_tile/layer.rs" scope="impl VectorTileLayer" name="filter_map_properties" head="|feature: VectorTileFeature|" sig="pub fn fmp_item<F: Fn(GeoProperties) -> Option<GeoProperties>>(&self, filter_fn: &F, feature: VectorTileFeature) -> Option<Result<(VectorTileFeature, GeoProperties), VErr>>"
+//@rewrite "filter_fn(" => "vmap_ok_fn(filter_fn(" R7
+//@rewrite ".map(|properties| Ok((feature, properties)))" => ", feature)" R7
+//@ret r
+//@spec
+		requires forall|p: GeoProperties| filter_fn.requires((p,)),
+		ensures match r {
+			Some(Ok(pair)) => same_body(pair.0, feature) && pair.0.tag_ids@ == feature.tag_ids@
+				&& feature.tag_ids@.len() % 2 == 0 && tags_in_range(self.property_manager.key.list@.len() as int, self.property_manager.val.list@.len() as int, feature.tag_ids@, feature.tag_ids@.len() as int / 2),
+			_ => true,
+		},
+//@end
 //@extract fn file="versatiles_geometry/src/vector_tile/layer.rs" scope="impl VectorTileLayer" name="add_vector_tile_features"
 //@spec
 		requires old(self).layer_ok(), old(self).property_manager.key.list@.len() < 0x3fff_ffff, old(self).property_manager.val.list@.len() < 0x3fff_ffff,
@@ -164,6 +192,7 @@ impl VectorTileLayer {
 				assert(old(self).tags_ok(i));
 				let t = old(self).features@[i].tag_ids@;
 				lemma_tags_map_stable(old(self).property_manager.key.list@, old(self).property_manager.val.list@, t, self.property_manager.key.list@, self.property_manager.val.list@, t, t.len() as int / 2);
+				lemma_in_range_mono(old(self).property_manager.key.list@.len() as int, old(self).property_manager.val.list@.len() as int, self.property_manager.key.list@.len() as int, self.property_manager.val.list@.len() as int, t, t.len() as int / 2);
 			}
 			assert forall|i: int| 0 <= i < self.features@.len() implies #[trigger] self.tags_ok(i) by { if i < n { assert(self.props_of(i) == old(self).props_of(i)); } }
 		}
